@@ -87,6 +87,21 @@ def generate(tier, rng):
              'names': ['uniform', 'apfl'] if tier == 'quick' else ['fed_avg', 'agnostic', 'hyp_cluster', 'apfl', 'rotated', 'uniform_arith']}
 
 
+  # ACROSS interpreter processes: the same histories in child processes with other PYTHONHASHSEEDs, and a
+  # state handed over through save_state / load_state to a new process
+  if tier != 'search':
+    subs = []
+    for name in ALGS + (['uniform_arith'] if tier == 'quick' else ['uniform_arith', 'rotated', 'drive']):
+      for ids in (['bytes', 'str'] if tier != 'quick' or name in ('hyp_cluster', 'apfl') else ['bytes']):
+        hp = dict(_hp_grid(name, 'quick', rng)[0])
+        if name not in AGGS:
+          hp.update(bs=2, epochs=2)          # seeded batching, batches of 2: the order of SGD steps matters
+        subs.append({'name': name, 'hp': hp, 'pop': _POP, 'rounds': [[3, 0, 5], [1, 3], [5, 2, 0], [3]], 'branch': 1,
+                     'seed': rng.randrange(1000), 'forms': dict(_FORMS[1], ids=ids)})
+    seeds = [1] if tier == 'quick' else [1, rng.randrange(2, 2 ** 31)]
+    yield {'name': 'xproc', 'cases': subs, 'hashseeds': seeds, 'handover': True, 'hp': {}, 'rounds': [], 'pop': []}
+
+
 def _generate_base(tier, rng):
   reps = {'quick': 6, 'thorough': 16, 'search': 16}[tier]
   for name in ALGS + AGGS:
@@ -286,6 +301,8 @@ def _same_out(o, s, d, values_only=False):
 
 
 def run(case):
+  if case['name'] == 'xproc':
+    return _run_xproc(case)
   if case['name'] == 'flags':
     from lib import c10c17_flags as flagrun
     return flagrun.run('c10', case['flag'], case['value'], case['names'], case['seed'])
@@ -451,9 +468,79 @@ def run(case):
   return obs
 
 
+def _digest(x):
+  import hashlib
+  leaves, _ = tiny.snapshot(x)
+  return hashlib.sha1(repr(leaves).encode()).hexdigest()
+
+
+def history_digests(payload):
+  """Per sub-case: the digest of (state, diagnostics) after every round from round `start` on; the start state is
+  init() or, for a hand-over, loaded with load_state from the file another process wrote.  Runs in ANY process."""
+  import fedjax
+  out = []
+  for sub in payload['cases']:
+    case, start, path = sub['case'], sub.get('start', 0), sub.get('path')
+    name, hp = case['name'], case['hp']
+    is_agg = name in AGGS
+    try:
+      obj = tiny.aggregator(name, hp) if is_agg else tiny.algorithm(name, hp)
+      if path:
+        state = fedjax.serialization.load_state(path)
+      else:
+        state = obj.init() if is_agg else tiny.init_state(name, hp, obj)
+      datasets = None if is_agg else [tiny.client_dataset(s) for s in case['pop']]
+      ds = []
+      for r in range(start, len(case['rounds'])):
+        clients = _agg_clients(case, r) if is_agg else _clients_for(case, r, datasets)
+        state, diag = _call_raw(name, obj, state, clients, is_agg)
+        ds.append(_digest((state, diag)))
+        if sub.get('save_at') == r:
+          fedjax.serialization.save_state(state, sub['save_path'])
+      out.append(ds)
+    except Exception as ex:
+      out.append(['error: ' + type(ex).__name__ + ': ' + str(ex)[:150]])
+  return out
+
+
+def _run_xproc(case):
+  from lib import c10c17_xproc as xp
+  d = tempfile.mkdtemp(prefix='c10-xproc-')
+  try:
+    subs = [{'case': c, 'save_at': c['branch'], 'save_path': os.path.join(d, 'state%d' % i)} for i, c in enumerate(case['cases'])]
+    here = history_digests({'cases': subs})
+    obs = {'err': None, 'here': here, 'children': []}
+    for hs in case['hashseeds']:
+      r = xp.call('c10', 'history_digests', {'cases': [{'case': c} for c in case['cases']]}, hs)
+      obs['children'].append({'hashseed': hs, 'kind': 'same history', 'err': r['err'], 'digests': r.get('result')})
+    if case.get('handover'):      # continue, in a new process, from the state this process saved after round `branch`
+      r = xp.call('c10', 'history_digests',
+                  {'cases': [{'case': s['case'], 'start': s['save_at'] + 1, 'path': s['save_path']} for s in subs]}, 2)
+      obs['children'].append({'hashseed': 2, 'kind': 'hand-over', 'err': r['err'], 'digests': r.get('result')})
+    return obs
+  finally:
+    shutil.rmtree(d, ignore_errors=True)
+
+
 def oracle(case, obs):
   n = case['name']
   out = []
+  if n == 'xproc':
+    for ch in obs['children']:
+      if ch['err']:
+        out.append(('xproc.harness-failed', f'child process (PYTHONHASHSEED={ch["hashseed"]}): {ch["err"]}'))
+        continue
+      for sub, mine, theirs in zip(case['cases'], obs['here'], ch['digests']):
+        if any(str(x).startswith('error') for x in mine + theirs):
+          out.append((sub['name'] + '.raises', f'{sub["name"]}: {[x for x in mine + theirs if str(x).startswith("error")][:1]}'))
+          continue
+        tail = mine[len(mine) - len(theirs):]
+        if theirs != tail:
+          r = next(i for i, (a, b) in enumerate(zip(tail, theirs)) if a != b) + len(mine) - len(theirs)
+          out.append((sub['name'] + '.process-dependent',
+                      f'{sub["name"]} ({ch["kind"]}, ids {sub["forms"]["ids"]}): another interpreter process (PYTHONHASHSEED={ch["hashseed"]}) '
+                      f'computes a different state / diagnostics from round {r} on, from the same state and clients'))
+    return out
   if n == 'flags':
     if obs['err']:
       return [('flags.harness-failed', f'{case["flag"]}={case["value"]}: {obs["err"]}')]
@@ -517,7 +604,7 @@ def _slot_desc(kind, row, keys):
 
 
 def encode(case, obs):
-  if case['name'] == 'flags':
+  if case['name'] in ('flags', 'xproc'):
     return None
   if obs['err'] or case['hp'].get('backend') or case['hp'].get('sopt') == 'ign':
     return None     # the scripts model the jit backend of for_each_client (gen/Gen_for_each_client.v: jit_*); debug / pmap, and the ignore-grads server optimizer (which hands the ignored leaf back as the very input object): oracle only
@@ -537,6 +624,8 @@ def encode(case, obs):
 
 
 def nontrivial(case, obs):
+  if case['name'] == 'xproc':
+    return bool(obs['children'])
   if case['name'] == 'flags':
     return bool(obs['results'])
   seen, rep = set(), False
@@ -547,6 +636,8 @@ def nontrivial(case, obs):
 
 
 def describe(case, obs):
+  if case['name'] == 'xproc':
+    return {'name': 'xproc', 'children': len(obs['children'])}
   if case['name'] == 'flags':
     return {'name': 'flags', 'flag': case['flag']}
   return {'name': case['name'], 'rounds': len(case['rounds']), 'serialiser': case.get('ser', 'pickle'),
